@@ -170,7 +170,7 @@ def bulk_job(arg):
 OPS = ["store", "has", "fetch", "sync", "fetch_paths", "reopen", "has_absent", "fetch_absent", "fetch_paths_absent", "sync_other", "resync"]
 
 
-def gen_sequence(rng, n, paths, nkeys=10):
+def gen_sequence(rng, n, paths, nkeys=13):
     seq = []
     for _ in range(n):
         op = rng.choice(OPS)
@@ -185,7 +185,12 @@ def gen_sequence(rng, n, paths, nkeys=10):
     return seq
 
 
-VALUES = ["text-é", "", b"\x00\xffbytes", b"", None, 7, [1, {"a": (2, 3)}], SM.Obj("o"), "crlf\r\nline\rend\n", b"\r\n\r"]
+VALUES = ["text-é", "", b"\x00\xffbytes", b"", None, 7, [1, {"a": (2, 3)}], SM.Obj("o"), "crlf\r\nline\rend\n", b"\r\n\r",
+          SM.result_value("frame0"), SM.result_value("frame_labels"), SM.result_value("frame_named_index")]
+
+
+def _same(a, b):
+    return type(a) is type(b) and SM.values_equal(a, b)
 
 
 def seq_job(arg):
@@ -226,7 +231,7 @@ def seq_job(arg):
                         if key in blobs:
                             r = st.fetch_blob(key)
                             rep.count("answers_checked")
-                            if r != blobs[key] or type(r) is not type(blobs[key]):
+                            if not _same(r, blobs[key]):
                                 bad("fetch_blob(%s..)=%r, stored %r" % (key[:6], r, blobs[key]), "blob-roundtrip")
                         else:
                             try:
@@ -304,7 +309,7 @@ def seq_job(arg):
                     if not st.has_blob(key):
                         bad("stored key %s.. not present at the end" % key[:6], "has-blob-wrong")
                     r = st.fetch_blob(key)
-                    if r != val or type(r) is not type(val):
+                    if not _same(r, val):
                         bad("final fetch_blob(%s..)=%r, stored %r" % (key[:6], r, val), "blob-roundtrip")
                 for p, key in pmap.items():
                     rep.count("answers_checked")
